@@ -1,5 +1,5 @@
 \* exhaustive: 4 content copies, 2 chunks, 2 saves per command (sync: before and after the parity update)
-CONSTANTS NCopies = 4  NChunks = 2  NSaves = 2  Guarded = TRUE
+CONSTANTS NCopies = 4  NChunks = 2  NSaves = 2  WriteFaults = TRUE  VerifyAll = TRUE  Guarded = TRUE
 SPECIFICATION Spec
 INVARIANT TypeOK
 INVARIANT CopiesWhole
